@@ -104,5 +104,8 @@ func corr(seed uint64, n int, t tools) {
 			id++
 		}
 	}
+	if t.segmenter != "" {
+		corrWriters(seed, n/3+1, t, &id)
+	}
 	corrRest(seed, n, t, &id)
 }
